@@ -78,6 +78,9 @@ func (g *Grammar) Options(types []reflect.Type) []participle.Option {
 	} else if len(g.Elide) > 0 {
 		opts = append(opts, participle.Elide(g.Elide...))
 	}
+	if len(g.ExtraElide) > 0 {
+		opts = append(opts, participle.Elide(g.ExtraElide...))
+	}
 	if variant == 1 {
 		opts = append(opts, participle.Lexer(g.Prof().Def)) // the lexer named last
 	}
